@@ -70,6 +70,101 @@ fn check_wrap(v: f64, l: f64, w: f64, w2: f64) {
     assert!(k.abs() <= 257.0);
 }
 
+/// Clauses (i) and (ii) only: cheap enough for the quick tier.
+fn check_box(v: f64, l: f64, w: f64) {
+    assert!(w >= 0.0 && w < l, "wrapped coordinate lies in the half-open box [0, L)");
+    if v >= 0.0 && v < l {
+        assert!(w == v, "a coordinate already in the box is unchanged");
+    }
+}
+
+harness16! {
+    // bound: wrap_coord<f64>, D=1, same lattice, clauses (i) box and (ii) identity only
+    #[kani::unwind(4)]
+    fn c16_wrap_coord_box_lattice_1d() {
+        let l = any_period();
+        let v = any_value();
+        kani::assume(v.abs() <= 256.0 * l);
+        let space = ToroidalSpace::<1>::new([l]);
+        let Some(w) = space.wrap_coord::<f64>(0, v) else { panic!("finite input with a positive finite period was refused") };
+        check_box(v, l, w);
+        kani::cover!(v < 0.0 && w == 0.0, "a negative coordinate wraps to 0.0 (clamp exercised)");
+        kani::cover!(v < 0.0 && w > 0.0, "a negative coordinate wraps into the interior");
+        kani::cover!(v == l, "v == L reached");
+        kani::cover!(v >= 0.0 && v < l, "v inside the box reached");
+    }
+}
+
+harness16! {
+    // bound: TopologicalSpace::canonicalize_point, D=2 (axis 0 symbolic), same lattice, clauses (i), (ii)
+    #[kani::unwind(5)]
+    fn c16_canonicalize_point_box_lattice_2d() {
+        let l = any_period();
+        let v = any_value();
+        kani::assume(v.abs() <= 256.0 * l);
+        let space = ToroidalSpace::<2>::new([l, 2.0]);
+        let mut c = [v, -3.5];
+        space.canonicalize_point(&mut c);
+        check_box(v, l, c[0]);
+        assert!(c[1] == 0.5);
+        kani::cover!(v < 0.0 && c[0] == 0.0, "a negative coordinate wraps to 0.0 (clamp exercised)");
+        kani::cover!(v > l, "v beyond the box reached");
+    }
+}
+
+harness16! {
+    // bound: ToroidalModel::canonicalize_point_in_place<f64> (hook), D=1, same lattice, clauses (i), (ii)
+    #[kani::unwind(4)]
+    fn c16_model_canonicalize_box_lattice_1d() {
+        let l = any_period();
+        let v = any_value();
+        kani::assume(v.abs() <= 256.0 * l);
+        let mut c = [v];
+        let r = thooks::toroidal_canonicalize_point_in_place::<f64, 1>([l], &mut c);
+        assert!(r.is_ok(), "finite input with a positive finite period is accepted");
+        check_box(v, l, c[0]);
+        kani::cover!(v < 0.0 && c[0] == 0.0, "a negative coordinate wraps to 0.0 (clamp exercised)");
+        kani::cover!(v > l, "v beyond the box reached");
+        core::mem::forget(r);
+    }
+}
+
+/// f32 coordinate on the lattice: ±0, or ±(12-bit significand) times 2^f, -100 <= f <= 38.
+fn any_value_f32() -> f32 {
+    let zero: bool = kani::any();
+    let neg: bool = kani::any();
+    let m: u16 = kani::any();
+    kani::assume(m < 2048);
+    let f: i16 = kani::any();
+    kani::assume(f >= -100 && f <= 38);
+    let sign = if neg { 1_u32 << 31 } else { 0 };
+    if zero { f32::from_bits(sign) } else {
+        f32::from_bits(sign | (((127 + i32::from(f)) as u32) << 23) | (u32::from(m) << 12))
+    }
+}
+
+harness16! {
+    // bound: ToroidalModel::canonicalize_point_in_place<f32> (hook), D=1, f32 coordinate with 12-bit significand, clauses (i) and idempotence
+    #[kani::unwind(4)]
+    fn c16_model_canonicalize_lattice_1d_f32() {
+        let l = any_period();
+        let v = any_value_f32();
+        kani::assume(f64::from(v).abs() <= 256.0 * l);
+        let mut c = [v];
+        let r = thooks::toroidal_canonicalize_point_in_place::<f32, 1>([l], &mut c);
+        assert!(r.is_ok(), "finite input with a positive finite period is accepted");
+        let wf = f64::from(c[0]);
+        assert!(wf >= 0.0 && wf < l, "wrapped f32 coordinate lies in the half-open box [0, L)");
+        let mut c2 = c;
+        let r2 = thooks::toroidal_canonicalize_point_in_place::<f32, 1>([l], &mut c2);
+        assert!(r2.is_ok() && c2[0] == c[0], "wrapping is idempotent");
+        kani::cover!(v < 0.0 && c[0] == 0.0, "a negative coordinate wraps to 0.0");
+        kani::cover!(v > 0.0 && wf < f64::from(v), "v beyond the box reached");
+        core::mem::forget(r);
+        core::mem::forget(r2);
+    }
+}
+
 harness16! {
     // bound: wrap_coord<f64>, D=1, lattice L (7-bit significand, |e|<=30) x v (12-bit significand, 2^-1000..2^38, ±0), |v|<=256 L
     #[kani::unwind(4)]
@@ -175,13 +270,10 @@ harness16! {
         assert!(out[0].data == Some(data), "user data preserved");
         let w = out[0].point().coords()[0];
         assert!(out[0].point().coords()[1] == 3.25);
-        let again = bhooks::canonicalize_vertices_toroidal(&out, [l, 4.0]);
-        let Ok(again) = again else { panic!("re-wrap refused") };
-        check_wrap(v, l, w, again[0].point().coords()[0]);
+        check_box(v, l, w);
         kani::cover!(v < 0.0 && w == 0.0, "a negative coordinate wraps to 0.0 (clamp exercised)");
         kani::cover!(v > l, "v beyond the box reached");
         core::mem::forget(out);
-        core::mem::forget(again);
     }
 }
 
